@@ -51,8 +51,14 @@ Definition listing_atomic (f : string) : bool :=
 Definition granularity (f : string) : gran := if listing_atomic f then Atomic else PerElement.
 
 Lemma servers_listing_atomic : granularity "Proxy.Servers" = Atomic
-  /\ granularity "Proxy.PlayerCount" = Atomic /\ granularity "players.Len" = Atomic.
+  /\ granularity "Proxy.PlayerCount" = Atomic /\ granularity "players.Len" = Atomic
+  /\ granularity "Proxy.Players" = Atomic /\ granularity "Proxy.DisconnectAll" = Atomic
+  /\ granularity "players.Range" = Atomic.
 Proof. vm_compute. repeat split. Qed.
+
+(* no site is tolerated any more: the obligation is "every site is guarded" *)
+Lemma every_site_guarded : forallb guarded accesses = true.
+Proof. vm_compute. reflexivity. Qed.
 
 (* ================= Part 2: snapshots ================= *)
 
